@@ -2,8 +2,15 @@
 from . import C02
 from .sync_common import *
 
-INFO = {"outside": "wip", "assumptions": []}
-MANIFEST = {"text": "wip", "note": "wip"}
+INFO = {
+    "outside": 'as C02',
+    "assumptions": ['as C02'],
+}
+MANIFEST = {
+    "text": 'The C02 single-step harnesses run with a recording update callback: for a universally quantified witness record, added/removed callbacks equal the change of its multiplicity for add, remove, remove-by-source; the real pfx_table_notify_diff on two arbitrary Inv-valid tables reports exactly the net difference of one cache; pfx_table_free reports every record removed exactly once; rtr_sync skeletons (table model) show the net callback effect of a rolled-back or reloaded response equals the net table change.',
+    "note": "Bounded as C02 (notify_diff on single-node tables in the quick tier). Callbacks issued by the table model in the rtr_sync unit mirror the real containers' behaviour established here.",
+    "technique": 'CBMC single-step induction with callback recorder on real trie-pfx.c',
+}
 
 
 def jobs(tier):
